@@ -512,10 +512,28 @@ package interpreter
 //@ ensures [noreturn] (evN() == 0 || sigT(evN()-1) != 3) ==> result0 == nil [C04]
 //@ ensures [complete] evN() < len(decl.Body) ==> evN() > 0 && sigT(evN()-1) != 0 [C04]
 
-//@ func (i *Interpreter) Interpret [C05,C06,C07]
+//@ func (i *Interpreter) Interpret [C05,C06,C03,C07]
 //@ requires [interp] i != nil
+// the program scope is a fresh child of the scope holding the built-ins; the statements run in order until one leaves a signal
+// behind (reported as an error with the signal's own line) or a runtime error has been reported
 //@ loop 1:
 //@   invariant [flagmono] old(utils.HadRuntimeError) ==> utils.HadRuntimeError
+//@   invariant [scope] env != nil && !old(envAllocated(now(env))) && envParent(env) == i.globals && !old(mapAllocated(now(envTable(env))))
+//@   invariant [log] evN() == iter
+//@   invariant [events] forall(k, 0, iter, evalAt(k, statements[k], env, isRepl) && live(k))
+//@   invariant [chain] forall(k, 1, iter, followsX(k))
+//@   invariant [now] iter > 0 ==> stateIsPostX(iter-1)
+//@   invariant [start] iter == 0 ==> stdoutN == old(stdoutN) && stderrN == old(stderrN) && utils.HadRuntimeError == old(utils.HadRuntimeError)
+//@ ensures [scope] evN() > 0 ==> !old(envAllocated(now(evEnv(0)))) && envParent(evEnv(0)) == i.globals && !old(mapAllocated(now(envTable(evEnv(0))))) [C03]
+//@ ensures [events] evN() <= len(statements) && forall(k, 0, evN(), evalAt(k, statements[k], evEnv(0), isRepl)) && forall(k, 1, evN(), followsX(k)) && forall(k, 0, evN()-1, live(k)) [C05,C06,C14]
+//@ ensures [stray] evN() > 0 && sigT(evN()-1) != 0 ==> utils.HadRuntimeError && stderrN == postErr(evN()-1)+1 && diagLine(stderr[postErr(evN()-1)]) == evSigLine(evN()-1) && stdoutN == postOut(evN()-1) [C05,C06]
+//@ ensures [quiet] evN() > 0 && sigT(evN()-1) == 0 ==> stdoutN == postOut(evN()-1) && stderrN == postErr(evN()-1) && utils.HadRuntimeError == postFlag(evN()-1) [C06,C19]
+//@ ensures [stop] evN() < len(statements) ==> evN() > 0 && !live(evN()-1) [C06]
+//@ ensures [empty] len(statements) == 0 ==> evN() == 0 && stdoutN == old(stdoutN) && stderrN == old(stderrN) && utils.HadRuntimeError == old(utils.HadRuntimeError) [C19]
+//@ ensures [noparse] utils.HadError == old(utils.HadError)
+
+//@ func NewInterpreter [C17,C08]
+//@ ensures [fresh] result != nil && result.globals != nil
 
 // ---- key / value listing (C12, C13) -----------------------------------
 
